@@ -83,6 +83,7 @@ static pthread_key_t exit_key;
 static volatile pid_t pending_reap_ktid;
 static long site_gcount[FS_MAX];
 static int quiesce_budget;
+static long steps_since_advance;
 
 #define MAXDEC SIMK_MAXDEC
 static struct simk_shared *SH;
@@ -398,6 +399,21 @@ static int pick(int cur)
 		int cand[SIMK_MAXT], n = 0, i, d, cur_is_cand = 0;
 
 		fire_due();
+		/* A thread that keeps running (polling without ever blocking) must not stop the clock for
+		 * everybody else: after a long stretch without any time passing, let the earliest pending
+		 * deadline arrive although somebody is still runnable. */
+		if (++steps_since_advance > 20000) {
+			int64_t nd = next_deadline();
+			steps_since_advance = 0;
+			if (nd > vnow && nd - vstart <= cfg.max_vtime_ns) {
+				if (simk_obs.time_advance)
+					simk_obs.time_advance(vnow, nd);
+				vnow = nd;
+				simk_stats.advances++;
+				simk_log(23, 0, vnow);
+				fire_due();
+			}
+		}
 		if (cur >= 0 && runnable(cur)) {
 			cand[n++] = cur;
 			cur_is_cand = 1;
@@ -443,6 +459,7 @@ static int pick(int cur)
 				_exit(70);
 			}
 			if (next > vnow) {
+				steps_since_advance = 0;
 				if (simk_obs.time_advance)
 					simk_obs.time_advance(vnow, next);
 				vnow = next;
@@ -1253,6 +1270,11 @@ ssize_t simk_read(int fd, void *b, size_t n)
 		site_gcount[FS_READ]++;
 	}
 	r = read(fd, b, shorten(fd, n, FS_READ));
+	if (simk_obs.read_data && r > 0) {
+		int e = errno;
+		simk_obs.read_data(me, fd, b, r);
+		errno = e;
+	}
 	if (simk_obs.fd_event) {
 		int e = errno;
 		simk_obs.fd_event(me, FDEV_READ, fd, (long)r);
@@ -2003,6 +2025,7 @@ void simk_run_begin(const struct simk_cfg *c)
 	nring = 0;
 	replay_pos = 0;
 	rr_left = cfg.rr_quantum;
+	steps_since_advance = 0;
 	pct_nchange = cfg.pct_depth > 8 ? 8 : cfg.pct_depth;
 	for (i = 0; i < pct_nchange; i++)
 		pct_change[i] = 1 + (long)(mixhash(cfg.sched_seed, 99, (uint64_t)i) % 600);
